@@ -259,7 +259,10 @@ def _classes():
                             bnames.append(nm + "_bn2")
                 self.plan.append((op, names, bnames, list(n["ins"])))
 
-        def forward(self, x, xb=None):
+        def forward(self, x):
+            return self.run_plan(x, None)
+
+        def run_plan(self, x, xb):
             t = [x]
             for op, names, bnames, ins in self.plan:
                 if op == "add":
@@ -272,6 +275,12 @@ def _classes():
                         y = self.layers[nm](y)
                 t.append(y)
             return t[-1]
+
+    class ImportNet2(ImportNet):
+        """Two-stream body: the second input is the tensor of the node "in2"."""
+
+        def forward(self, x, xb):
+            return self.run_plan(x, xb)
 
     class TwoIn(nn.Module):
         """Two-input forward around an ImportNet body."""
@@ -288,7 +297,7 @@ def _classes():
                 return self.body(xa, xb)
             return self.body(torch.cat([xa, xb], dim=1))
 
-    _CLS.update({"ImportNet": ImportNet, "TwoIn": TwoIn})
+    _CLS.update({"ImportNet": ImportNet, "ImportNet2": ImportNet2, "TwoIn": TwoIn})
     return _CLS
 
 
@@ -319,7 +328,7 @@ def build_user_model(arch: Dict[str, Any], fold: bool, seed: int):
     torch.set_default_dtype(torch.float64)
     gen = torch.Generator().manual_seed(seed)
     cl = _classes()
-    body = cl["ImportNet"](arch, fold)
+    body = cl["ImportNet2" if arch["two"] == "sep" else "ImportNet"](arch, fold)
     randomize(body, gen)
     shp = input_shape(arch)
     if arch["two"] == "no":
@@ -535,9 +544,9 @@ EXERCISED = {
     "PIT.__init__": {"model", "cost", "input_example", "input_shape", "autoconvert_layers", "discrete_cost", "full_cost",
                      "exclude_names", "exclude_types", "train_features", "train_rf", "train_dilation", "fold_bn"},
     "PIT.export": {"add_bn"},
-    "SuperNet.__init__": {"model", "cost", "input_example", "full_cost"},
+    "SuperNet.__init__": {"model", "cost", "input_example", "input_shape", "full_cost"},
     "SuperNet.get_total_icv": set(),
-    "MPS.__init__": {"model", "cost", "input_example", "w_search_type", "full_cost", "exclude_names", "exclude_types",
+    "MPS.__init__": {"model", "cost", "input_example", "input_shape", "w_search_type", "full_cost", "exclude_names", "exclude_types",
                      "temperature", "gumbel_softmax", "hard_softmax", "disable_sampling", "disable_shared_quantizers"},
     "MPS.nas_parameters_summary": {"post_sampling"},
 }
@@ -672,10 +681,16 @@ def run(sc: Dict[str, Any]) -> Dict[str, Any]:
                     w = PIT(model, input_example=ex, fold_bn=fold, autoconvert_layers=auto, exclude_names=excl, **kw)
             elif method == "SN":
                 from plinio.methods import SuperNet
-                w = SuperNet(model, input_example=ex, **kw)
+                if len(xs) == 1 and int(sc.get("seed", 0)) % 2 == 0 and all(n["trs"] or not n["bn"] for n in arch["nodes"]):
+                    w = SuperNet(model, input_shape=tuple(xs[0].shape[1:]), **kw)
+                else:
+                    w = SuperNet(model, input_example=ex, **kw)
             else:
                 from plinio.methods import MPS
-                w = MPS(model, input_example=ex, exclude_names=excl, **kw)
+                if len(xs) == 1 and int(sc.get("seed", 0)) % 2 == 0 and all(n["trs"] or not n["bn"] for n in arch["nodes"]):
+                    w = MPS(model, input_shape=tuple(xs[0].shape[1:]), exclude_names=excl, **kw)
+                else:
+                    w = MPS(model, input_example=ex, exclude_names=excl, **kw)
         tr["conv_ok"] = True
     except Exception as e:
         tr["err"] = _err(e)
